@@ -211,6 +211,13 @@ def findReplace (hpred : Pred) (elems : List BAggElem) : Option (BAggElem × Lit
     e.2.foldl (fun acc cond =>
       if ((litPreds allSigns cond).map (·.pred)).contains hpred then some (e, cond) else acc) acc) none
 
+/-- `_nonnegative_weights(agg)`: every element has a non-negative number as weight -/
+def nonnegativeWeights (elems : List BAggElem) : Bool :=
+  elems.all fun e =>
+    match e.1 with
+    | .sym (.num n) :: _ => n ≥ 0
+    | _ => false
+
 /-- `inline_body_aggregate(rule, atom, unique_vars)` -/
 def inlineBodyAggregate (sg : Single) (atom : Atom) (uv : UniqueVars) : Except String (Atom × UniqueVars) :=
   match atom with
@@ -223,10 +230,7 @@ def inlineBodyAggregate (sg : Single) (atom : Atom) (uv : UniqueVars) : Except S
         let resultFn := if ifn == .sum then AggFun.sum else f
         if !(good ifn).contains f then return (atom, uv)
         -- fix (known_findings.json `fixed:`): an inner #sum+ ignores negative weights, an outer #sum would count them
-        if ifn == .sump && f == .sum && !(ielems.all fun e =>
-            match e.1 with
-            | .sym (.num n) :: _ => n ≥ 0
-            | _ => false) then return (atom, uv)
+        if ifn == .sump && f == .sum && !nonnegativeWeights ielems then return (atom, uv)
         let an := analyticsOfGuards ilg irg
         match an.equalVars with
         | [] => .error "py: IndexError: equal_variable_bound[0]"
@@ -489,6 +493,8 @@ def inlineMinimize (tuples : List (List Term)) (stm : Stm) : Except String (List
     match bodyBAggs body with
     | [.bagg al ac lg f es rg] => do
       if !(f == .count || f == .sum || f == .sump) then return ([stm], false)
+      -- fix (known_findings.json `fixed:`): #sum+ ignores negative weights, the objective would count them
+      if f == .sump && !nonnegativeWeights es then return ([stm], false)
       let an := analyticsOfGuards lg rg
       match an.equalVars, an.bounds with
       | [ev], [] =>
